@@ -216,6 +216,18 @@ def locate(locator):
             n = int(m.group(1))
             if n > len(cl): raise LostAnchor("%s fn %s: closure %d not found (%d closures)" % (relpath, name, n, len(cl)))
             return src, "closure", it, cl[n - 1]
+        m = re.match(r"tail\s+(.*)$", tail)
+        if m:
+            # the rest of the function body, from the anchor to the closing brace (lifted as a function body)
+            rx, _ = split_regex_directive(m.group(1))
+            body = src.text[src.toks[it.body_open][1]:src.toks[it.end_tok][2]]
+            ms = list(re.finditer(rx, body))
+            if len(ms) != 1: raise LostAnchor("%s fn %s: tail anchor /%s/ matches %d times" % (relpath, name, rx, len(ms)))
+            off = src.toks[it.body_open][1] + ms[0].start()
+            first = None
+            for k in src.sig:
+                if src.toks[k][1] >= off: first = k; break
+            return src, "tail", it, {"body_open": src.prev_sig(first), "body_close": it.end_tok, "start_off": off}
         m = re.match(r"block\s+(.*)$", tail)
         if m:
             rx, _ = split_regex_directive(m.group(1))
@@ -318,17 +330,24 @@ def build_item(spec, vacuity=False, unit_calls=None):
         # lifted closure / block: emitted text = declared signature + body
         if not spec.sig: raise ValueError("%s: lifted item needs //@ sig" % spec.locator)
         body_open, body_close = extra["body_open"], extra["body_close"]
-        lo, hi = toks[body_open][1], toks[body_close][2]
+        if kind == "tail":
+            lo, hi = extra["start_off"], toks[body_close][2]
+        else:
+            lo, hi = toks[body_open][1], toks[body_close][2]
         out_start = lo
         orig = text[lo:hi]
         sig_end = lo
         add(lo, lo, [Seg(spec.sig + "\n", "sig")])
         report["rewrites"].append({"kind": "lift", "signature": spec.sig,
                                    "enclosing_fn": it.name})
-    if kind in ("fn", "closure", "block"):
+    if kind in ("fn", "closure", "block", "tail"):
         if spec.spec is not None:
             add(sig_end, sig_end, payload_segments(spec.spec, "spec"))
-        b_lo, b_hi = toks[body_open][1], toks[body_close][2]
+        if kind == "tail":
+            add(lo, lo, [Seg("{\n", "sig")])
+            b_lo, b_hi = lo, toks[body_close][2]
+        else:
+            b_lo, b_hi = toks[body_open][1], toks[body_close][2]
         body = text[b_lo:b_hi]
         # loops
         if spec.loops:
@@ -346,7 +365,7 @@ def build_item(spec, vacuity=False, unit_calls=None):
         # hints
         for (where, n, mcount, rx, lines_) in spec.hints:
             if where == "start":
-                p = toks[body_open][2]
+                p = toks[body_open][2] if kind != "tail" else lo
             else:
                 ms = list(re.finditer(rx, body))
                 if len(ms) != mcount:
@@ -363,7 +382,7 @@ def build_item(spec, vacuity=False, unit_calls=None):
             add(p, p, [Seg(" " + itext + " ", "rewrite")])
             report["rewrites"].append({"kind": "insert", "at": mm.group(0), "text": itext})
         if vacuity and spec.vac:
-            p = toks[body_open][2]
+            p = toks[body_open][2] if kind != "tail" else lo
             add(p, p, [Seg(" proof { assert(false); } // VACUITY-PROBE\n", "vacuity")])
         # addarg (item-level first, then the unit-level `world-calls` for every call site not yet handled)
         m = src.matching()
@@ -477,7 +496,7 @@ def assemble(unit, vacuity=False, outdir=None):
                 s, rep = build_item(ch[1], vacuity=vacuity, unit_calls=meta.get("world-calls"))
                 rep["template_line"] = ch[1].lineno
                 rep["has_spec"] = ch[1].spec is not None
-                rep["vac"] = ch[1].vac and rep["kind"] in ("fn", "closure", "block")
+                rep["vac"] = ch[1].vac and rep["kind"] in ("fn", "closure", "block", "tail")
                 idx = len(reports)
                 reports.append(rep)
                 for x in s:
